@@ -166,9 +166,9 @@ pub fn run(ctx: &Ctx) -> i32 {
         if i % 97 == 0 {
             docs[0] = Val::Map(vec![]);
         }
-        if i % 600 == 599 {
+        if i % 600 == 599 || (n <= 20000 && i % 200 == 199) {
             // roots around the 16-bit length limit of MessagePack headers (map 32 / array 32)
-            let n = *rng.pick(&[65535usize, 65536, 70000]);
+            let n = *rng.pick(&[32767usize, 32768, 40000, 65535, 65536, 70000]);
             acc.count("huge_root_collections");
             docs = vec![if rng.chance(1, 2) { Val::Map((0..n).map(|k| (Val::Str(format!("k{k}")), Val::Int((k % 3) as i128))).collect()) } else { Val::Seq((0..n).map(|k| Val::Int((k % 3) as i128)).collect()) }];
         }
@@ -302,7 +302,7 @@ pub fn run(ctx: &Ctx) -> i32 {
     let n_cli = ctx.size(96, 960);
     let cli = crate::par::run(n_cli, 2, |i, acc| cli_later_operand(seed, i, acc));
     acc.merge(cli);
-    let rule = format!("{} document sets (1-5 collection-rooted documents; maps get a first key from a pool of {} detection-hostile keys: empty, numeric-looking, quoted, YAML/TOML indicators, non-ASCII incl. U+0080-U+07FF) x 4 output formats (TOML: first document, TOML-representable), every 600th set a single root map/array of 65 535..70 000 entries, every 100th a map holding 33-100 KB of multi-byte characters behind 0..7 ASCII bytes (read whole and 16 384 / 8192 / 16 383 / 16 385 / 65 536 bytes at a time); every output is offered to the detect hook as a slice and under 3 read schedules, and xt(None->X) is compared with xt(F->X) in slice and reader mode; the outputs of one set are also fed one after the other through ONE translator without a source format; at the command line, own output as a later operand without a telling name (a file, or '-') behind a first operand whose extension names each format; distinct non-trivial = distinct document sets", n, FIRST_KEYS.len());
+    let rule = format!("{} document sets (1-5 collection-rooted documents; maps get a first key from a pool of {} detection-hostile keys: empty, numeric-looking, quoted, YAML/TOML indicators, non-ASCII incl. U+0080-U+07FF) x 4 output formats (TOML: first document, TOML-representable), every 600th set (quick: every 200th) a single root map/array of 32 767..70 000 entries, every 100th a map holding 33-100 KB of multi-byte characters behind 0..7 ASCII bytes (read whole and 16 384 / 8192 / 16 383 / 16 385 / 65 536 bytes at a time); every output is offered to the detect hook as a slice and under 3 read schedules, and xt(None->X) is compared with xt(F->X) in slice and reader mode; the outputs of one set are also fed one after the other through ONE translator without a source format; at the command line, own output as a later operand without a telling name (a file, or '-') behind a first operand whose extension names each format; distinct non-trivial = distinct document sets", n, FIRST_KEYS.len());
     ev::finish(
         Finish { ctx, level: "exploration", rule, assumptions: vec!["TOML exceptions decided by the harness's hand-written JSON reader and libyaml-event reader, not by xt".into(), "an empty table is written to TOML as zero bytes; that empty text must still be recognised as TOML".into()], extra: serde_json::Map::new(), exhaustive: false, min_distinct: 1000, must_reach: vec![("pipeline_equivalence_checked".into(), 1000), ("huge_root_collections".into(), 5), ("cli_own_output_as_a_later_operand".into(), 40), ("long_multibyte_text_documents".into(), 20), ("detected_toml_as_toml".into(), 100), ("detected_yaml_as_yaml".into(), 100), ("detected_msgpack_as_msgpack".into(), 100), ("detected_json_as_json".into(), 100), ("own_outputs_through_one_translator".into(), 1000), ("json_output_after_toml_or_yaml_on_one_translator".into(), 1000)] },
         acc,
